@@ -34,6 +34,64 @@ func (in *Interp) boolTerm(v value) *Term {
 	panic(fmt.Sprintf("boolTerm: %T", v))
 }
 
+// canon: a big term over a single octet variable is replaced by an equivalent small one when
+// exhaustive evaluation over the variable's domain shows it is constant, the variable itself, or a
+// zero-extension of it (e.g. decode(encode(x)) through two table lookups). Sound under the path condition.
+func (in *Interp) canon(t *Term) *Term {
+	if t.IsConst() || t.size < 40 || t.w == 0 {
+		return t
+	}
+	v := t.sup
+	if v == nil || v == multiSup || v.w > 8 || v.w == 0 {
+		return t
+	}
+	if in.canonMemo == nil {
+		in.canonMemo = map[*Term]canonEnt{}
+	}
+	if e, ok := in.canonMemo[t]; ok && e.ver == in.domVer[v] {
+		return e.res
+	}
+	ts := in.ts
+	d := in.domOf(v)
+	first := true
+	var c0 uint64
+	isConst, isIdent := true, true
+	for val := uint64(0); val <= mask(v.w); val++ {
+		if d[val>>6]&(1<<(val&63)) == 0 {
+			continue
+		}
+		x := ts.EvalWith(t, v, val)
+		if first {
+			c0, first = x, false
+		} else if x != c0 {
+			isConst = false
+		}
+		if x != val {
+			isIdent = false
+		}
+		if !isConst && !isIdent {
+			break
+		}
+	}
+	res := t
+	switch {
+	case first:
+	case isConst:
+		res = ts.Const(t.w, c0)
+	case isIdent && t.w == v.w:
+		res = v
+	case isIdent && t.w > v.w:
+		res = ts.ZExt(v, t.w)
+	}
+	in.canonMemo[t] = canonEnt{in.domVer[v], res}
+	return res
+}
+
+type canonEnt struct {
+	ver int
+	res *Term
+}
+
 // norm turns constant terms back into concrete values.
 func norm(t *Term) value {
 	if t.IsConst() {
